@@ -1,3 +1,19 @@
+(* Outstation/SessionC04Proofs.v — property C04 over the session model (Outstation/Session.v):
+   OPERATE actuates only after its own matching, fresh, directly preceding SELECT.
+
+   1. sbo_operate_needs_matching_select / control_callback_function  (one step)
+   2. operate_rejected_echoes_status                                  (one step)
+   3. select_state_inv, frame_id_wrap_refuted                         (history invariant)
+   4. operate_sbo_implies_select                                      (trace theorem, DESIGN.md appendix B)
+   5. select_then_operate_once                                        (converse)
+
+   History of this file: the first proof attempt of (3)/(4) failed on the model as it then was, and
+   the obstruction was a genuine defect of the implementation (session.rs, FragmentType::RepeatNonRead:
+   `select.update_frame_id(info.id)` ran for the retransmission of ANY non-READ request, also when the
+   select was already stale): SELECT, X, X retransmitted, OPERATE actuated; and a refused SELECT that was
+   retransmitted revived an older select.  Repaired in /repo (487019d: re-base only when
+   `frame_id.wrapping_add(1) == new_frame_id`) and mirrored in Session.v; the witnesses are kept as
+   Examples in Properties/C04.v. *)
 From Dnp3V Require Import Outstation.Session Outstation.SessionLemmas_c04.
 Open Scope N_scope.
 
